@@ -24,7 +24,9 @@ import lib
 PROPS = {"OutputAllowed": "OutputAllowed", "CloseCode": "OutputAllowed (prescribed close code)", "NoStartBeforeInit": "NoStartBeforeInit",
          "OneTerminal": "OneTerminal", "NothingAfterTerminal": "NothingAfterTerminal", "NeverWedged": "NeverWedged",
          "NoPanic": "NeverWedged (no crash)"}
-VARIANTS = {"init": 3, "initrej": 2, "ping": 2, "unknown": 3, "malformed": 6, "binary": 3, "subbad": 6}
+VARIANTS = {"init": 3, "initrej": 2, "ping": 2, "unknown": 3, "malformed": 6, "binary": 3, "subbad": 6,
+            "readerr": 7}   # readerr (conn mode): 0 = the transport fails the read, 1-6 = corrupt but aligned frames through the real codec
+FRAGS = [2, 3, 12, 13]      # conn mode: message sent as 2/3 fragments (+10: a WebSocket ping control frame in between)
 END = {"ev": "end", "a": "", "id": "", "k": 0, "n": 0, "code": 0}
 
 
@@ -85,6 +87,8 @@ def make_case(cid, proto, mode, steps, rng=None):
         s["v"] = 0
         if rng is not None and s["t"] == "in" and s["sym"] in VARIANTS:
             s["v"] = rng.randrange(VARIANTS[s["sym"]])
+        if rng is not None and mode == "conn" and s["t"] == "in" and s["sym"] != "readerr" and rng.random() < 0.3:
+            s["frag"] = rng.choice(FRAGS)
         out.append(s)
     if any(s.get("hold") for s in out):
         mode = "tc"   # the write gate sits in the scripted TransportClient
@@ -102,7 +106,7 @@ def v2_steps(steps):
             kinds[i + 1] = "s" if s["sym"] in ("sub1s", "sub2s") else "q"
     first = {}
     for s in out:
-        if s.get("hold") or s["t"] in ("release", "broken") or s.get("sym") == "subbad":
+        if s.get("hold") or s["t"] in ("release", "broken", "tick", "initgo") or s.get("sym") in ("subbad", "initslow"):
             return None
         if s["t"] == "eng":
             kd = kinds.get(s["k"])
@@ -116,7 +120,7 @@ def v2_steps(steps):
 
 
 def sig(case):
-    return lib.sha([case["proto"], case["mode"], [(s["t"], s.get("sym"), s.get("v"), s.get("id"), s.get("k"), s.get("what"), s.get("hold")) for s in case["steps"]]])
+    return lib.sha([case["proto"], case["mode"], [(s["t"], s.get("sym"), s.get("v"), s.get("id"), s.get("k"), s.get("what"), s.get("hold"), s.get("frag")) for s in case["steps"]]])
 
 
 def nontrivial(case):
@@ -272,6 +276,13 @@ def run(ctx):
         scheds = [uniq[k] for k in sorted(uniq)]
         exhaustive[p] = len(scheds)
         # schedules that end with a transport broken for good cost a read-error time-out (150ms) each
+        # schedules with a timer step (keep-alive tick: <= 60ms; slow InitFunc raced by the init timeout: 400ms) are sampled too
+        def timed(x):
+            return any(y["t"] == "tick" or y.get("sym") == "initslow" for y in x)
+        tim = [x for x in scheds if timed(x) and x[-1]["t"] != "broken"]
+        scheds = [x for x in scheds if not timed(x) or x[-1]["t"] == "broken"]
+        rng.shuffle(tim)
+        tim = tim[:(300 if quick else 6000)]
         bro = [x for x in scheds if x[-1]["t"] == "broken"]
         bro_re = [x for x in bro if any(y.get("sym") == "readerr" for y in x)]     # read error, ..., persistent read errors
         bro_other = [x for x in bro if not any(y.get("sym") == "readerr" for y in x)]
@@ -290,12 +301,13 @@ def run(ctx):
             rng.shuffle(small)
             rng.shuffle(rest)
             scheds = small[:4800] + rest[:1200]
-        ctx.log("%s: %d schedules with <= 3 client messages generated, %d + %d (broken transport) replayed" % (p, exhaustive[p], len(scheds), len(bro)))
-        for i, st in enumerate(scheds + bro):
+        ctx.log("%s: %d schedules with <= 3 client messages generated, %d + %d (broken transport) + %d (timer steps) replayed" % (
+            p, exhaustive[p], len(scheds), len(bro), len(tim)))
+        for i, st in enumerate(scheds + bro + tim):
             cases.append(make_case("%s-x-%06d" % (p, i), p, "tc", st))
         # the same schedules over the real frame codec, with seed-chosen wire variants of the symbols
         conn = scheds if (p == "tws" or not quick) else rng.sample(scheds, 1500)
-        conn = conn + (bro[:60] if quick else bro[:2000])
+        conn = conn + (bro[:60] if quick else bro[:2000]) + (tim[:100] if quick else tim[:2000])
         for i, st in enumerate(conn):
             cases.append(make_case("%s-c-%06d" % (p, i), p, "conn", st, rng))
         # the schedules the real ExecutorV2 can realise (gated, not scripted): the same acceptor judges them
@@ -491,8 +503,8 @@ def replay_and_judge(ctx, binary, cases, nproc, single=False):
         "traces_validated_against_impl": len(verdicts),
         "evaluations": len(cases),
         "distinct_nontrivial": len(distinct),
-        "rule": "one case = one TLC-generated schedule (client message sequence over the 15-symbol alphabet - incl. transport read errors, undeserializable subscribe payloads, refused inits - interleaved with engine events "
-                "data/fin/result/error, the init timeout, a transport broken for good and held terminal writes) replayed into the real server in one mode (tc: scripted "
+        "rule": "one case = one TLC-generated schedule (client message sequence over the 17-symbol alphabet - incl. transport read errors / corrupt frames, undeserializable subscribe payloads, refused and slow inits, connection_terminate - interleaved with engine events "
+                "data/fin/result/error, the init timeout, a transport broken for good, a keep-alive / heartbeat interval and held terminal writes) replayed into the real server in one mode (tc: scripted "
                 "TransportClient + scripted executors; conn: real Client + frame codec over a scripted net.Conn; v2: scripted TransportClient + the "
                 "real ExecutorV2 on a small engine); distinct by (protocol, mode, steps incl. wire variants); non-trivial = at least two "
                 "client messages and (an engine event / timeout, or two different symbols)",
@@ -509,8 +521,10 @@ def replay_and_judge(ctx, binary, cases, nproc, single=False):
 def step_str(s):
     if s["t"] == "broken":
         return "transport-broken"
+    if s["t"] in ("initgo", "tick"):
+        return s["t"]
     if s["t"] == "in":
-        return s["sym"] + ("/v%d" % s["v"] if s.get("v") else "")
+        return s["sym"] + ("/v%d" % s["v"] if s.get("v") else "") + ("/frag%d" % s["frag"] if s.get("frag") else "")
     if s["t"] == "eng":
         return "eng(%s#%d,%s%s)" % (s["id"] or "<none>", s["k"], s["what"], ",write-held" if s.get("hold") else "")
     if s["t"] == "release":
